@@ -138,7 +138,7 @@ PIPELINES.append(Pipeline('U3_escape_safety_any_string', units=[U_len, U_next, U
                           loops={'append_utf8_encoded_string': ESC_LOOP}, maythrow={'next_utf8_codepoint': False},
                           replace=['next_utf8_codepoint', 'vstr_push_char', 'vstr_append_range', 'verif_strlen'],
                           harness='void harness(void) { vstr* o; const char* d; append_utf8_encoded_string(o, d); __CPROVER_assert(verif_exc != 0, "canary:normal"); __CPROVER_assert(verif_exc == 0, "canary:throw"); }',
-                          enforce='append_utf8_encoded_string', canaries=['canary:normal', 'canary:throw'], noflags=NOCONV, timeout=1500, solver='kissat', tier='thorough', object_bits=10, split=14,
+                          enforce='append_utf8_encoded_string', canaries=['canary:normal', 'canary:throw'], noflags=NOCONV, timeout=1500, solver='kissat', tier='thorough', object_bits=10,
                           replay=('c14_escape', lambda cex, o: ['str', hexs(cex.witness('append_utf8_encoded_string').split(b'\\0')[0])]),
                           note='whatever bytes the string contains, the escaper never reads beyond its terminating NUL; termination (decreases)'))
 # the caller-side contract of next_utf8_codepoint is itself enforced on the real body
